@@ -69,10 +69,10 @@ def displayFrame : List Act := [.cmd Command.MasterActivation, W]
 def clearAchromatic (bg : Nat) : List Act :=
   [.cmd Command.WriteRam, .rep (if bg = 0 then 0x00 else 0xFF) bufferLen]
 
-/-- `clear_chromatic_frame`: White 0x00, Chromatic 0xFF, Black 0x00 — sent with `WriteRam`
+/-- `clear_chromatic_frame`: White 0x00, Chromatic 0xFF, Black 0x00 — sent with `WriteRamRed` since fix 97421a1 (was `WriteRam`)
     (not `WriteRamRed`), as the Rust does -/
 def clearChromatic (bg : Nat) : List Act :=
-  [.cmd Command.WriteRam, .rep (if bg = 2 then 0xFF else 0x00) bufferLen]
+  [.cmd Command.WriteRamRed, .rep (if bg = 2 then 0xFF else 0x00) bufferLen]   -- (fix 97421a1)
 
 def achro (b : Bytes) : List Act := [.cmd Command.WriteRam, .data b]
 def chro (c : Bytes) : List Act := [.cmd Command.WriteRamRed, .data c]
